@@ -68,3 +68,52 @@ Theorem c17_pinned_refuted_unjustified_source :
   ~ justified_needs_votes 4 0 (run (mkvar false true) 4 4 0 0 wit_unjustified_source).
 Proof. exact pinned_refuted_unjustified_source. Qed.
 Print Assumptions c17_pinned_refuted_unjustified_source.
+
+(* ---- The threshold of the model is the threshold of the code (translator tools/gofrag) ----------------------
+
+   VerifGen.FragTypes.SupLink_IsMajority is GENERATED from protocol/bc/types/sup_link.go (SupLink.IsMajority) on
+   every run: a function of the lengths of s.Signatures and of numOfValidators (int64 arithmetic of the code).
+   [count_nonempty lens] = the number of non-empty signatures (C17/Tie.v). *)
+From Coq Require Import ZArith.
+From Verif Require Import GoInt.
+From VerifGen Require Import FragTypes.
+From C17 Require Import Tie.
+Local Open Scope Z_scope.
+
+(* 7. For all inputs: the generated function answers  count > wrap64(2n) quot 3  and never panics. *)
+Theorem c17_code_IsMajority_exact : forall lens n,
+  Z.of_nat (length lens) <= 2 ^ 63 - 1 -> in_range I64 n = true ->
+  SupLink_IsMajority lens n = Some (count_nonempty lens >? Z.quot (wrap I64 (n * 2)) 3).
+Proof. exact IsMajority_exact. Qed.
+Print Assumptions c17_code_IsMajority_exact.
+
+(* 8. Below 2^62 validators (the protocol allows 10) it is the supermajority test 3 * count > 2 * n. *)
+Theorem c17_code_IsMajority_spec : forall lens n,
+  Z.of_nat (length lens) <= 2 ^ 63 - 1 -> 0 <= n < 2 ^ 62 ->
+  exists b, SupLink_IsMajority lens n = Some b /\ (b = true <-> 3 * count_nonempty lens > 2 * n).
+Proof. exact IsMajority_spec. Qed.
+Print Assumptions c17_code_IsMajority_spec.
+
+(* 9. The exact condition for wrap-around: from 2^62 on, numOfValidators*2 is negative and one signature is enough. *)
+Theorem c17_code_IsMajority_wraps : forall lens n,
+  Z.of_nat (length lens) <= 2 ^ 63 - 1 -> 2 ^ 62 <= n <= 2 ^ 63 - 1 ->
+  SupLink_IsMajority lens n = Some (count_nonempty lens >? Z.quot (2 * n - 2 ^ 64) 3) /\
+  (1 <= count_nonempty lens -> SupLink_IsMajority lens n = Some true).
+Proof. exact IsMajority_wraps. Qed.
+Print Assumptions c17_code_IsMajority_wraps.
+
+(* 10. TIE: the generated function is the hand-written threshold of theorems 1-4 ... *)
+Theorem c17_tie_go_is_majority : forall lens n,
+  Z.of_nat (length lens) <= 2 ^ 63 - 1 -> 0 <= n < 2 ^ 62 ->
+  SupLink_IsMajority lens n = Some (go_is_majority (Z.to_N (count_nonempty lens)) (Z.to_N n)).
+Proof. exact tie_go_is_majority. Qed.
+Print Assumptions c17_tie_go_is_majority.
+
+(* 11. ... and the threshold of the engine model C16/Model.v (a link has one slot per non-empty signature). *)
+Theorem c17_tie_engine_is_majority : forall lens (n : N) (l : link),
+  Z.of_nat (length lens) <= 2 ^ 63 - 1 -> (n < 2 ^ 62)%N ->
+  count_nonempty lens = Z.of_nat (length (l_slots l)) ->
+  SupLink_IsMajority lens (Z.of_N n) = Some (is_majority n l).
+Proof. exact tie_is_majority. Qed.
+Print Assumptions c17_tie_engine_is_majority.
+Close Scope Z_scope.
